@@ -265,6 +265,7 @@ def selftest_binding(prop, cases, wd: Path, o: Outcome, corrupt):
                 raise Machinery("binding self test: corrupted observation was accepted")
             o.notes["binding_selftest"] = "rejected: " + rej[0][0]["clause"]
             return
-    if len(cases) > 0:
+    if len(cases) > 0 and not o.violations:
         raise Machinery("binding self test: no case could be corrupted")
-    o.notes["binding_selftest"] = "skipped: every case was rejected"
+    # (with violations to report, a self test that finds nothing to corrupt must not stand in their way)
+    o.notes["binding_selftest"] = "skipped: violations found / every case was rejected"
